@@ -1750,6 +1750,42 @@ pub fn suite_text(ctx: &mut Ctx) {
             text_case(ctx, &c, mode, &new, &old);
         }
     }
+    // NEAR-ALIASES: one token of old replaced in new by a token that differs from it only by padding / tag bytes (NULs, a
+    // high byte, a length byte, a BOM), inside more than 100 short tokens -- whatever packs, pads or truncates tokens into
+    // fixed-width keys confuses exactly such a pair; `[u8]` and (where valid) `str`
+    {
+        let pads: Vec<Box<dyn Fn(&[u8]) -> Vec<u8>>> = vec![
+            Box::new(|t| [t, &vec![0u8; 7usize.saturating_sub(t.len())][..], &[0xf8 | t.len() as u8][..]].concat()),
+            Box::new(|t| [t, &vec![0u8; 7usize.saturating_sub(t.len())][..], &[t.len() as u8][..]].concat()),
+            Box::new(|t| [t, &[0u8][..]].concat()),
+            Box::new(|t| [&[0u8][..], t].concat()),
+            Box::new(|t| [t, &[0xffu8][..]].concat()),
+            Box::new(|t| [t, &[0x80 | t.len() as u8][..]].concat()),
+            Box::new(|t| [t, "\u{feff}".as_bytes()].concat()),
+            Box::new(|t| [t, &vec![b' '; 0][..], &[0x7fu8][..]].concat()),
+        ];
+        for (pi, pad) in pads.iter().enumerate() {
+            for tl in 0..8usize {
+                if !ctx.take() {
+                    continue;
+                }
+                let t: Vec<u8> = b"abcdefgh"[..tl].to_vec();
+                let alias = pad(&t);
+                for (kind, sep) in [(Kind::Words, &b" x"[..]), (Kind::Lines, &b"\n"[..])] {
+                    let filler: Vec<u8> = (0..52).flat_map(|_| sep.iter().copied()).collect();
+                    let old: Vec<u8> = [&t[..], &filler[..]].concat();
+                    let new: Vec<u8> = [&alias[..], &filler[..]].concat();
+                    let c = TextCfg { kind, alg: ALGS[(pi + tl) % 3], nlt: None, dl: None };
+                    ctx.count("text.near_alias_cases");
+                    text_pair(ctx, &c, &old, &new, (pi * 8 + tl) as u64);
+                    // the pair in the MIDDLE of the tokens
+                    let old2: Vec<u8> = [&filler[..], sep, &t[..], &filler[..]].concat();
+                    let new2: Vec<u8> = [&filler[..], sep, &alias[..], &filler[..]].concat();
+                    text_pair(ctx, &c, &old2, &new2, (pi * 8 + tl) as u64 + 1);
+                }
+            }
+        }
+    }
     // the case-insensitive user-defined type: some tokens of new differ from old only in case (equal under the type's `==`, not
     // byte-identical), a few really differ; below and above the 100-token switch; lines and words
     let nci = if ctx.tier == Tier::Quick { 400u64 } else { 5000 };
@@ -3578,6 +3614,51 @@ pub fn suite_remap(ctx: &mut Ctx) {
             let new = format!("{}{}{}X{}tail{}", line('a', w), sep, line('b', w + wi % 2), sep, sep);
             ctx.count("remap.wide_token_cases");
             remap_case(ctx, kind, ALGS[wi % 3], if wi % 2 == 0 { Mode::Str } else { Mode::Bytes }, old.as_bytes(), new.as_bytes());
+        }
+    }
+    // BLOCKS of equal-width tokens: 31 / 32 / 33 / 64 / 65 neighbouring lines (words) of exactly w bytes each, w around the
+    // powers of two up to 4096, with an edit right behind the block (an index that packs offsets relative to a block base, or
+    // stores widths in fewer bits, wraps exactly at such a block)
+    for (wi, &w) in [7usize, 8, 9, 255, 256, 257, 511, 512, 1023, 1024, 1025, 2047, 2048, 2049, 4095, 4096].iter().enumerate() {
+        for (ki, &k) in [31usize, 32, 33, 64, 65].iter().enumerate() {
+            if !ctx.take() {
+                continue;
+            }
+            if w > 300 && ctx.tier == Tier::Quick && (wi + ki) % 2 == 1 {
+                continue;
+            }
+            let (sep, kind) = if (wi + ki) % 3 == 0 { (" ", Kind::Words) } else { ("\n", Kind::Lines) };
+            let tok: String = std::iter::repeat('t').take(w - 1).collect();
+            let block: String = (0..k).map(|_| format!("{}{}", tok, sep)).collect();
+            let old = format!("{}last{}", block, sep);
+            let new = format!("{}LAST{}more{}", block, sep, sep);
+            ctx.count("remap.equal_width_block_cases");
+            remap_case(ctx, kind, ALGS[(wi + ki) % 3], if ki % 2 == 0 { Mode::Str } else { Mode::Bytes }, old.as_bytes(), new.as_bytes());
+        }
+    }
+    // one token of 2^24 (+1) bytes as the first / last token of an op (implementation only: lengths and offsets above 24 bits)
+    for extra in [0usize, 1] {
+        if !ctx.take() {
+            continue;
+        }
+        let big: String = std::iter::repeat('x').take((1 << 24) + extra).collect();
+        let old = format!("alpha beta {} foo", big);
+        let new = format!("alpha beta {}  foo bar", big);
+        let req = format!("helper words str myers | <alpha beta, one word of 2^24+{} bytes, foo> | <the same with a second blank and a word more> | - | -", extra);
+        ctx.count("remap.giant_token_cases");
+        let r = catch_unwind(AssertUnwindSafe(|| {
+            let v = similar::utils::diff_words(Algorithm::Myers, &old[..], &new[..]);
+            let o: String = v.iter().filter(|(t, _)| *t != ChangeTag::Insert).map(|(_, s)| *s).collect();
+            let n: String = v.iter().filter(|(t, _)| *t != ChangeTag::Delete).map(|(_, s)| *s).collect();
+            (o == old, n == new, v.iter().any(|(_, s)| s.is_empty()))
+        }));
+        match r {
+            Err(_) => ctx.violation("C17", &req, "diff_words panicked".to_string()),
+            Ok((a, b, e)) => {
+                if !a || !b || e {
+                    ctx.violation("C17", &req, "the returned slices do not reconstruct the texts (or one is empty)".to_string());
+                }
+            }
         }
     }
     // the slice helper: every pair up to length 3 over 3 symbols, and random pairs of the seven families
